@@ -17,7 +17,7 @@ from . import c12
 T = 6000000000
 INITIAL_BP = ['!', 'wl_surface']
 COMMANDS = ['resume', 'quit', 'help', 'list', 'breakpoint wl_surface', 'breakpoint !', 'connection A', 'connection all',
-            'filter wl_pointer', 'breakpoint ! .motion', 'r', 'q']
+            'filter wl_pointer', 'breakpoint ! .motion', 'r', 'q', 'connection B', 'connection Z', 'breakpoint [', 'filter *']
 CMD_REF = {'breakpoint wl_surface': ('wl_surface', ['wl_surface'], []), 'breakpoint !': ('!', 'NONE', None),
            'breakpoint ! .motion': ('! .motion', [], ['.motion'])}
 MSG_KINDS = ['commit', 'motion', 'enter', 'name']
@@ -62,9 +62,10 @@ class RefPause:
         self.selection = None
         self.halted = True
         self.quit = False
+        self.filter = 'all'      # the output filter must not influence halting, but it is part of the state
 
     def key(self):
-        return [self.bp.key(), self.selection, self.halted, self.quit]
+        return [self.bp.key(), self.selection, self.halted, self.quit, self.filter]
 
     def enabled(self):
         if self.quit:
@@ -148,8 +149,12 @@ def run_hist(init_bp, hist, check_from=0):
                     ref.bp.step(CMD_REF[text])
                 elif text == 'connection all':
                     ref.selection = None
-                elif text.startswith('connection '):
+                elif text in ('connection A', 'connection B'):
                     ref.selection = text.split()[-1]
+                elif text == 'filter wl_pointer':
+                    ref.filter = 'wl_pointer'
+                elif text == 'filter *':
+                    ref.filter = 'all'
                 if is_quit:
                     ref.quit = True
                 elif is_resume:
